@@ -227,6 +227,13 @@ func ruleGrammarGuards(c *Ctx) {
 		}
 		R.Ob("(*parser).parsePath/skips a source route", c.P.Pos(f.Pos()), nSkip >= 1, "no skip of the source route found")
 	}
+	// what the decoders hand out is what they decoded: no raw pass-through of the wire form
+	if f := c.A.Func("decodeUTF8AddrXtext"); f != nil {
+		for _, a := range acceptingReturns(f) {
+			d := describe(returnedValues(a.(*ssa.Return))[0])
+			R.Ob(c.siteKey(a, "result comes from the replacement over the whole value"), c.P.InstrPos(a), strings.Contains(d, "ReplaceAllStringFunc(eUOrDCharRe,param0,"), "decodeUTF8AddrXtext returns "+d)
+		}
+	}
 	// the greeting argument
 	if f := c.A.Func("parseHelloArgument"); f != nil {
 		for _, a := range acceptingReturns(f) {
